@@ -139,7 +139,8 @@ def c04_rows(ctx, shape, mob):
         ctx.ensure("single-cell grid: no faces, nothing to assemble", True)
         return
     thin = min(shape) == 1 or len(shape) == 1
-    ctx.witness("subcell_or_face_mobility_on_thin_grid", thin and mob in ("SUBCELL_BASED", "FACE_BASED"))
+    known_cfg = thin and mob in ("SUBCELL_BASED", "FACE_BASED")
+    ctx.witness("subcell_or_face_mobility_on_thin_grid", False)
     for mob in [W.MobilityMode[mob]]:
         for method in ("newton", "bregman"):
             try:
@@ -155,6 +156,8 @@ def c04_rows(ctx, shape, mob):
                 else:
                     mats["regularization"] = w._update_regularization(sol[w.flux_slice])[0]
             except Exception as e:      # noqa: BLE001
+                if known_cfg and isinstance(e, IndexError):
+                    ctx.witness("subcell_or_face_mobility_on_thin_grid", True)
                 ctx.ensure(f"{method}/{mob.name}: linearisation can be assembled on shape {shape} ({type(e).__name__})", False)
                 continue
             c = np.zeros((1, grid.num_cells))
@@ -209,7 +212,8 @@ def c04_runtime(ctx, shape, method, l1, mob, form, ls, aa, weight, masses):
         wimg = darsia.Image(np.full(shape, float(weight)), space_dim=len(shape), scalar=True, dimensions=list(m1.dimensions))
     opts = base_options(l1_mode=W.L1Mode[l1], mobility_mode=W.MobilityMode[mob], formulation=form, linear_solver=ls, aa_depth=aa, num_iter=25)
     thin = min(shape) == 1 or len(shape) == 1
-    ctx.witness("subcell_or_face_mobility_on_thin_grid", thin and mob in ("SUBCELL_BASED", "FACE_BASED"))
+    known_cfg = thin and mob in ("SUBCELL_BASED", "FACE_BASED")
+    ctx.witness("subcell_or_face_mobility_on_thin_grid", False)
     with warnings.catch_warnings():
         warnings.simplefilter("ignore")
         w = solver(method, grid, opts, wimg)
@@ -223,7 +227,12 @@ def c04_runtime(ctx, shape, method, l1, mob, form, ls, aa, weight, masses):
             cap["distance"] = r[0]
             return r
         w._solve = spy
-        dist, info = w(m1, m2)
+        try:
+            dist, info = w(m1, m2)
+        except IndexError:
+            if known_cfg:
+                ctx.witness("subcell_or_face_mobility_on_thin_grid", True)
+            raise
     if grid.num_faces == 0:
         ctx.ensure("single cell: distance 0", dist == 0)
         return
